@@ -12,7 +12,8 @@ import PyAirtouch.Model.Sock
 * `C17_delivered_only_if_valid` — whatever the byte stream, a message is delivered only if its header decoded, the
   check value validated and the registered decoder accepted exactly the declared payload (`parseOne` is a total
   function: every other stream is `needMore` or `reject`).  The two `while offset < length` decoders terminate
-  (`At4.FF11.decLoop` is defined by well-founded recursion with a proved decrease; AT5's is a bounded `for`).
+  (`At4.FF11.decLoop` and `At5.FF11.decLoop` are defined by well-founded recursion with a proved decrease:
+  every iteration advances by `2 + following length`).
 * `C17_reject_resets` — in the socket model a rejected frame (`readBad`) or any exception out of the read path
   (`readErr`) makes the read task run `reset_connection`; it never simply dies (C07 gives the rest).
 -/
